@@ -737,6 +737,8 @@ class ParallelProcess(Process):
         # Whether the process is a step never changes; asking the worker
         # each time would fail while an update is pending.
         self._is_step = process.is_step()
+        # Parent-side copy of the process's schema (see the schema property).
+        self._schema = process.schema
         self._pending_command: Optional[
             Tuple[str, Optional[tuple], Optional[dict]]] = None
 
@@ -811,10 +813,14 @@ class ParallelProcess(Process):
 
     @property
     def schema(self) -> Optional[Schema]:
-        return self.run_command('schema')
+        # The parent keeps a copy (see the setter): the views are
+        # rebuilt after structural updates, also while this process
+        # has an update pending and cannot take a command.
+        return self._schema
 
     @schema.setter
     def schema(self, value: Optional[Schema]) -> None:
+        self._schema = value
         self.run_command('set_schema', (value,))
 
     def merge_overrides(self, override: Schema) -> None:
